@@ -218,7 +218,11 @@ func inSamePtr(fr *frame, args []value) value {
 }
 
 func inIsSymbolic(fr *frame, args []value) value {
-	switch v := args[0].(type) {
+	x := args[0]
+	if i, ok := x.(iface); ok {
+		x = i.v
+	}
+	switch v := x.(type) {
 	case sym:
 		return true
 	case []value:
